@@ -24,3 +24,13 @@ package processor
 //verif:never (*Bool).Store
 //verif:ensures[error-when-configure-or-open-fails] called("Processor.Configure") && !succeeded("Processor.Configure") || called("Processor.Open") && !succeeded("Processor.Open") ==> err != nil
 //verif:call[configure-before-open] Processor.Open requires succeeded("Processor.Configure")
+
+// C18: the policy a processor runs under is ALWAYS the result of egress.ResolvePolicy on
+// what the pipeline asked for and the engine-level ceiling (ResolvePolicy is proved, in
+// its own package, never to exceed the ceiling's timeout and size and to intersect the
+// secret scope); a request that cannot be parsed gets the deny-all policy. There is no
+// path that hands the requested policy through unclamped.
+//verif:func (*Service).resolveEgressPolicy(s, i) (policy, err)
+//verif:ensures[always-clamped-by-the-ceiling] err == nil ==> called("egress.ResolvePolicy") && policy == result_of("egress.ResolvePolicy", 0)
+//verif:call[clamp-the-request-against-the-engine-ceiling] egress.ResolvePolicy requires arg0 == result_of("egress.PolicyFromSettings", 0) && succeeded("egress.PolicyFromSettings") && arg1 == s.egressCeiling
+//verif:ensures[unparseable-request-is-deny-all] err != nil ==> called("egress.DenyAll") && policy == result_of("egress.DenyAll", 0) && !called("egress.ResolvePolicy")
